@@ -1,6 +1,7 @@
 package zzverif
 
 import (
+	"os"
 	"encoding/json"
 	"path/filepath"
 
@@ -27,4 +28,35 @@ func DumpIR(ctx *Ctx, replayFile []byte, lang string) string {
 		return obs.IRLoad + "\n" + obs.ErrLoad
 	}
 	return obs.IRLang[lang] + "\n" + obs.ErrLang[lang]
+}
+
+// MaterialiseReplay writes the workload(s) of a replay file below dir (w/, w2/),
+// pipeline file included, so that the real cog binary can be run on them by hand.
+func MaterialiseReplay(replayFile []byte, dir string) string {
+	var rf struct {
+		Payload struct {
+			W  *Workload `json:"workload"`
+			W2 *Workload `json:"workload2"`
+		} `json:"payload"`
+	}
+	if err := json.Unmarshal(replayFile, &rf); err != nil || rf.Payload.W == nil {
+		return "no workload in replay file"
+	}
+	out := ""
+	for name, w := range map[string]*Workload{"w": rf.Payload.W, "w2": rf.Payload.W2} {
+		if w == nil {
+			continue
+		}
+		d := filepath.Join(dir, name)
+		_ = os.RemoveAll(d)
+		if err := os.MkdirAll(d, 0o755); err != nil {
+			return err.Error()
+		}
+		cfg, err := w.Materialise(d)
+		if err != nil {
+			return err.Error()
+		}
+		out += name + ": " + cfg + "  (" + w.Name + ")\n"
+	}
+	return out
 }
